@@ -6,7 +6,7 @@ CONSTANTS
     Unescape = "quote"
     BearerTail = 4
     XKeys = {"K_hash", "K_cert", "K_subject", "K_uri", "K_dns", "K_by", "K_chain"}
-    XAtoms = {"c", "COMMA", "SEMI", "EQ", "Q", "SP", "PC", "PQ", "PN", "ESC"}
+    XAtoms = {"c", "COMMA", "SEMI", "EQ", "Q", "SP", "PC", "PQ", "PN", "ESC", "ESCBS"}
     XLen = 2
     XElems = 3
     XPairs = 3
@@ -14,7 +14,7 @@ CONSTANTS
     XWs = {FALSE, TRUE}
     X2Keys = {}
     X2Atoms = {}
-    CnAtoms = {"c0", "ESC", "EQ", "SP"}
+    CnAtoms = {"c0", "ESC", "EQ", "SP", "ESCBS"}
     CnLen = 3
     NoiseSyms = {}
     NoiseLen = 0
